@@ -85,6 +85,10 @@
     clippy::undocumented_unsafe_blocks
 )]
 #![allow(clippy::type_complexity, clippy::manual_range_contains)]
+#![cfg_attr(
+    feature = "verif-hooks",
+    allow(missing_docs, missing_debug_implementations)
+)]
 // uncomment me to run benchmarks
 //#![cfg_attr(test, feature(test))]
 #![cfg_attr(test, deny(warnings))]
@@ -130,6 +134,10 @@ pub mod client;
 pub mod ext;
 pub mod server;
 mod share;
+
+#[cfg(feature = "verif-hooks")]
+#[allow(missing_docs, missing_debug_implementations)]
+pub mod verif;
 
 #[cfg(fuzzing)]
 #[cfg_attr(feature = "unstable", allow(missing_docs))]
